@@ -29,7 +29,7 @@ ASSUMPTIONS = [
     "defaults are compared with type identity (true/1/1.0 are all different)",
     "a default and its composition parent are one node in statham's normal form when the composition has a single branch; the multiset comparison ignores location for that reason",
 ]
-BUDGET = {"quick": 350, "thorough": 5000}
+BUDGET = {"quick": 1000, "thorough": 9000}
 
 TYPES = ["null", "boolean", "integer", "number", "string", "array"]
 FALSY = [False, 0, 0.0, "", [], {}, None]
